@@ -152,6 +152,9 @@ Probe ==
     /\ UNCHANGED <<mode, allowed, inflight, ever, mine, faulted>>
 
 Succeeded(r) == r.res \in {"ok", "true", "false"}
+\* runs with injected failures: "fault" (one transient failure, C20) and "powerfault" (power loss meeting
+\* fsyncs that keep failing, C09: only the probes of the images are judged there)
+Faulty == mode \in {"fault", "powerfault"}
 
 Ret ==
     /\ Rec[l].ev = "ret"
@@ -164,16 +167,16 @@ Ret ==
         /\ faulted' = IF faulted.inop THEN [faulted EXCEPT !.reported = ~Succeeded(r), !.inop = FALSE] ELSE faulted
         /\ bad' =
              IF r.res \in {"panic", "abort"} THEN V("C20", "operation panicked: " \o r.op)
-             ELSE IF mode # "fault" /\ ~Succeeded(r) THEN V("C01", "operation failed without any fault: " \o r.res)
-             ELSE IF mode = "fault" /\ faulted.inop /\ Succeeded(r)
+             ELSE IF ~Faulty /\ ~Succeeded(r) THEN V("C01", "operation failed without any fault: " \o r.res)
+             ELSE IF Faulty /\ faulted.inop /\ Succeeded(r)
                     THEN V("C20", "a system call failed during " \o r.op \o " but the operation reported success")
-             ELSE IF mode = "fault" /\ ~faulted.inop /\ ~Succeeded(r)
+             ELSE IF Faulty /\ ~faulted.inop /\ ~Succeeded(r)
                     THEN V("C20", r.op \o " fails although no system call failed during it (the store did not stay usable): " \o r.res)
              ELSE IF r.op = "del" /\ Succeeded(r) /\ (IF r.res = "true" THEN allowed[r.k] = {None}
                                                                   ELSE None \notin allowed[r.k])
-                    THEN V(IF mode = "fault" THEN "C20" ELSE "C01", "delete misreports whether the key was present")
+                    THEN V(IF Faulty THEN "C20" ELSE "C01", "delete misreports whether the key was present")
              ELSE IF Has(r, "gets") /\ \E k \in Keys : r.gets[k] \notin allowed'[k]
-                    THEN V(IF mode = "fault" THEN "C20" ELSE "C01", "a key reads a value it should not have")
+                    THEN V(IF Faulty THEN "C20" ELSE "C01", "a key reads a value it should not have")
              ELSE OK
     /\ inflight' = NoOp
     /\ UNCHANGED <<mode, ever, mine>>
